@@ -30,6 +30,7 @@ type Ctx struct {
 	n     int
 	memo  map[string]Term
 	notes map[string]bool // abstraction notes collected while generating VCs
+	pow10Max int
 }
 
 func NewCtx() *Ctx { return &Ctx{memo: map[string]Term{}, notes: map[string]bool{}} }
@@ -198,6 +199,14 @@ func Ite(c, a, b Term) Term {
 	}
 	return app("ite", c, a, b)
 }
+func fold2(a, b Term, f func(x, y *big.Int) *big.Int) (Term, bool) {
+	x, ok1 := isNumeral(a)
+	y, ok2 := isNumeral(b)
+	if ok1 && ok2 {
+		return LitBig(f(x, y)), true
+	}
+	return "", false
+}
 func Add(a, b Term) Term {
 	if a == "0" {
 		return b
@@ -205,11 +214,17 @@ func Add(a, b Term) Term {
 	if b == "0" {
 		return a
 	}
+	if t, ok := fold2(a, b, func(x, y *big.Int) *big.Int { return new(big.Int).Add(x, y) }); ok {
+		return t
+	}
 	return app("+", a, b)
 }
 func Sub(a, b Term) Term {
 	if b == "0" {
 		return a
+	}
+	if t, ok := fold2(a, b, func(x, y *big.Int) *big.Int { return new(big.Int).Sub(x, y) }); ok {
+		return t
 	}
 	return app("-", a, b)
 }
@@ -220,9 +235,17 @@ func Mul(a, b Term) Term {
 	if b == "1" {
 		return a
 	}
+	if t, ok := fold2(a, b, func(x, y *big.Int) *big.Int { return new(big.Int).Mul(x, y) }); ok {
+		return t
+	}
 	return app("*", a, b)
 }
-func Neg(a Term) Term     { return app("-", a) }
+func Neg(a Term) Term {
+	if x, ok := isNumeral(a); ok {
+		return LitBig(new(big.Int).Neg(x))
+	}
+	return app("-", a)
+}
 func Lt(a, b Term) Term   { return app("<", a, b) }
 func Le(a, b Term) Term   { return app("<=", a, b) }
 func Gt(a, b Term) Term   { return app(">", a, b) }
@@ -502,4 +525,13 @@ func sortedKeys[V any](m map[string]V) []string {
 	}
 	sort.Strings(ks)
 	return ks
+}
+
+// EMod: Euclidean modulus (result in [0, |m|)), exact for either sign of m.
+func (c *Ctx) EMod(n, m Term) Term {
+	if mv, ok := isNumeral(m); ok && mv.Sign() != 0 {
+		return app("mod", n, m)
+	}
+	r := c.TRem(n, m)
+	return Ite(Lt(r, "0"), Add(r, Abs(m)), r)
 }
